@@ -11,7 +11,7 @@
    Every theorem is for EVERY stream, EVERY chunking ds into non-empty chunks (any number, any sizes, also smaller than
    q / the block size), plain and annotated headers h, 1-D and 2-D; sample values are an abstract type, the filter
    recurrence [filt], the RMS [agg], the difference [sub], the threshold [thr]/[ge] are abstract functions. *)
-From PV Require Import Stages.Model Stages.Spec Stages.ProofsC Stages.ProofsD.
+From PV Require Import Stages.Model Stages.Spec Stages.ProofsC Stages.ProofsD Stages.ProofsE.
 
 (* ---------------- blocked: consecutive blocks of exactly bs samples ---------------- *)
 Theorem C12_blocked_values : forall (A : Type) bs h s (ds : list (list A)), 1 <= bs -> nonempty_chunks ds ->
@@ -143,6 +143,26 @@ Theorem C12_event_rate_contiguous : forall bsz stp lo (cs : list events),
   exists st outs, run (er_step true bsz stp) None cs = Some (st, outs) /\ r_contiguous (2 * lo + bsz) stp outs.
 Proof. exact event_rate_contiguous. Qed.
 Print Assumptions C12_event_rate_contiguous.
+
+(* ---------------- the two filter stages on chunkings that CONTAIN zero-length chunks (no hypothesis on ds):
+   the stages skip an empty chunk (iirfilter also waits for the first non-empty one before scaling its state);
+   iir_step_e / decimate_step_e are those stages, equal to iir_step / decimate_step on non-empty chunks ---------------- *)
+Theorem C12_iirfilter_values_any : forall (A F : Type) (filt : F -> A -> F * A) finit h s (ds : list (list A)),
+  emits_values (run (iir_step_e true filt finit) None (mkstream h s ds)) (iir_filtered filt finit (concat ds)).
+Proof. exact @iir_values_any. Qed.
+Print Assumptions C12_iirfilter_values_any.
+Theorem C12_iirfilter_contiguous_any : forall (A F : Type) (filt : F -> A -> F * A) finit h s (ds : list (list A)),
+  emits_contiguous (run (iir_step_e true filt finit) None (mkstream h s ds)) h s.
+Proof. exact @iir_contiguous_any. Qed.
+Print Assumptions C12_iirfilter_contiguous_any.
+Theorem C12_decimate_values_any : forall (A F : Type) (filt : F -> A -> F * A) zf0 q, 1 <= q -> forall h s (ds : list (list A)),
+  emits_values (run (decimate_step_e true filt zf0 q) None (mkstream h s ds)) (decimated filt zf0 q (concat ds)).
+Proof. exact @decimate_values_any. Qed.
+Print Assumptions C12_decimate_values_any.
+Theorem C12_decimate_contiguous_any : forall (A F : Type) (filt : F -> A -> F * A) zf0 q, 1 <= q -> forall h s (ds : list (list A)),
+  emits_contiguous (run (decimate_step_e true filt zf0 q) None (mkstream h s ds)) (h_scale q h) (h_s0 h s).
+Proof. exact @decimate_contiguous_any. Qed.
+Print Assumptions C12_decimate_contiguous_any.
 
 (* ---------------- what contiguity buys (concat model of pipeline.concat) ---------------- *)
 Theorem C12_contiguous_concat : forall (A : Type) h s (outs : list (blk A)), contiguous h s outs -> outs <> [] ->
